@@ -245,9 +245,38 @@ fn table_layout(rep: &mut Report, r: &mut Rng) {
     }
 }
 
+/// the pointer-identity part of `table_layout` on a stride of slots (interpreter-friendly): iter_mut uses raw ptr.add
+fn table_layout_light(rep: &mut Report, r: &mut Rng) {
+    let mut t = Box::new(PageTable::new());
+    let base = &*t as *const PageTable as usize;
+    for i in (0..512usize).step_by(37).chain([511usize]) {
+        rep.evals(4);
+        let p1 = &t[i] as *const PageTableEntry as usize;
+        let p2 = &t[PageTableIndex::new(i as u16)] as *const PageTableEntry as usize;
+        let p3 = t.iter().nth(i).unwrap() as *const PageTableEntry as usize;
+        let p4 = t.iter_mut().nth(i).unwrap() as *mut PageTableEntry as usize;
+        if p1 != base + 8 * i || p2 != p1 || p3 != p1 || p4 != p1 {
+            rep.violation("PageTable|access-path-addresses-wrong-slot", J::U(i as u64));
+        }
+        let a = rand_addr(r);
+        t.iter_mut().nth(i).unwrap().set_addr(PhysAddr::new(a), PageTableFlags::PRESENT);
+        if raw(&t[i]) != a | 1 {
+            rep.violation("PageTable|iter_mut-write-lost", J::U(i as u64));
+        }
+    }
+    t.zero();
+    if !t.is_empty() {
+        rep.violation("PageTable::zero|bytes-left", J::Null);
+    }
+    rep.class("table|light-miri");
+}
+
 pub fn run(a: &Args, rep: &mut Report) {
     let mut r = Rng::derive(a.seed, "c08", a.shard);
-    let reps = if a.thorough() { 40 } else { 3 };
+    let reps = if cfg!(miri) { 0 } else if a.thorough() { 40 } else { 3 };
+    if cfg!(miri) {
+        table_layout_light(rep, &mut r);
+    }
     for _ in 0..reps {
         table_layout(rep, &mut r);
     }
